@@ -68,13 +68,18 @@ def enc_col(col):
 
 
 def enc_err(exc):
+  """The model's error constructor for an exception of the modelled code, None for any other exception
+  (recognised by the function that raised it, so that e.g. a KeyError for an unknown column is not mistaken)."""
+  import traceback
+  tb = traceback.extract_tb(exc.__traceback__)
+  where = tb[-1].name if tb else ''
   if isinstance(exc, column_mod.UniqueReferenceError):
     return 'EUnique'
-  if isinstance(exc, KeyError):
+  if isinstance(exc, KeyError) and where == 'remove_reference':
     return 'EKeyError'
-  if isinstance(exc, TypeError):
+  if isinstance(exc, TypeError) and where in ('_raw_get_without', '<listcomp>'):
     return 'ETypeError'
-  if isinstance(exc, AssertionError):
+  if isinstance(exc, AssertionError) and 'non-existent record' in str(exc):
     return 'ENoRow'
   return None
 
